@@ -99,10 +99,11 @@ def _on_alarm(signum, frame):
     raise Hang()
 
 
-def track(res, case):
+def track(res, case, seconds=None):
     _track['res'] = res
     _track['case'] = case
-    signal.setitimer(signal.ITIMER_REAL, HANG_S)
+    _track['seconds'] = seconds or HANG_S
+    signal.setitimer(signal.ITIMER_REAL, seconds or HANG_S)
 
 
 def untrack():
@@ -136,7 +137,7 @@ def _worker(args):
             r = new_result()
             r['internal_error'] = f'spec={spec!r}: watchdog fired outside a tracked evaluation'
             return r
-        add_violation(r, case, f'evaluation did not finish within {HANG_S:.0f} s (hang)', sig='hang')
+        add_violation(r, case, f'evaluation did not finish within {_track.get("seconds") or HANG_S:.0f} s (hang)', sig='hang')
         r['notes'].append(f'shard {spec!r} abandoned after a hang')
         return r
     except Exception:
